@@ -829,10 +829,10 @@ class C15(common.Prop):
     prop_file = 'theories/Properties/C15.v'
     case_requires = ('From Coq Require Import String.\nFrom Coq Require Import List Ascii ZArith Bool.\n'
                      'From CGV Require Import Base.PyBase Base.PyVal Base.NxGraph Stereo.EzImpl Stereo.EzDefs Stereo.EzCheck.')
-    quick_cases = 520
+    quick_cases = 440
     thorough_cases = 6000
     extended_cases = 2500
-    shard = 40
+    shard = 30
     fail_text = {1: 'the returned heavy-atom graph is not the written molecule (atoms cannot be recognised)',
                  2: "a tuple stored in 'ez_isomer' is not a path ligand-anchor=anchor-ligand of the returned molecule",
                  3: "a 'chiral' label is missing, extra or sits on another atom than the one it was written on",
@@ -996,7 +996,7 @@ class C15(common.Prop):
         ident = impl.get('ident') or impl.get('ident_before')
         wbl = lit.lst(['(%s, %s, %s, %s)' % (lit.z(l), lit.z(an), lit.b(w), lit.b(c)) for l, an, w, c in case.get('wb', [])])
         return ('{| c_judged := %s; c_before := %s; c_after := %s; c_ret := %s; c_atoms := %s; c_bonds := %s; '
-                'c_ident := %s; c_chiral := %s; c_rel := %s; c_wb := %s; c_frags := %s; c_str := %s |}'
+                'c_ident := %s; c_chiral := %s; c_rel := %s; c_wb := %s; c_frags := %s; c_str := %s; c_side := %s |}'
                 % (lit.b(case.get('judged', True)), '(Some %s)' % before if before else 'None',
                    '(Some %s)' % after if after else 'None',
                    '(Some %s)' % ret if ret else 'None',
@@ -1004,7 +1004,8 @@ class C15(common.Prop):
                    lit.lst([lit.pair(lit.z(a), lit.z(b)) for a, b in ident]) if ident is not None else '[]',
                    chir, rel, wbl,
                    lit.lst(['(%s, %s, %s)' % (lit.s(n), lit.s(t), o) for n, t, o in impl.get('frags', [])]),
-                   '(Some %s)' % lit.s(case['s']) if case.get('hfree') else 'None'))
+                   '(Some %s)' % lit.s(case['s']) if case.get('hfree') else 'None',
+                   lit.lst(['(%s, %s, %s)' % (lit.z(l), lit.z(a), lit.b(sd == 'u')) for l, a, sd in mol['side']])))
 
     def python_oracle(self, case, impl):
         return py_oracle(case, impl)
